@@ -376,3 +376,141 @@ func hasStar(ps []maskkit.Path) bool {
 	}
 	return false
 }
+
+// groupExt: an index / key SET followed by a sub path, then a refinement of a strict subset of
+// its members with another field (`$.li[0,1].x`, `$.li[1].y`): inside C14's domain. The members
+// are taken from what the value holds, so that the refined and the unrefined members are both
+// written and read. Sites: list / set / int-map / string-map of structs, directly in s or one
+// struct level down.
+type geSite struct {
+	prefix maskkit.Path
+	kind   string // idx keyi keys
+	ints   []int64
+	strs   []string
+	elem   *schemagen.Struct
+}
+
+func (g *pgen) selectable(s *schemagen.Struct) []*schemagen.Field {
+	var out []*schemagen.Field
+	seenID, seenN := map[int]bool{}, map[string]bool{}
+	for _, f := range s.Fields {
+		if !seenID[f.ID] && !seenN[f.Name] && ftOf(g.prog, f.Type) != "Invalid" {
+			out = append(out, f)
+		}
+		seenID[f.ID], seenN[f.Name] = true, true
+	}
+	return out
+}
+
+func (g *pgen) geSites(s *schemagen.Struct, v *valgen.Value, prefix maskkit.Path, depth int, out *[]geSite) {
+	if v == nil || v.K != "struct" {
+		return
+	}
+	for _, f := range g.selectable(s) {
+		fv := deref(v.Field(f.ID))
+		if fv == nil {
+			continue
+		}
+		pre := append(append(maskkit.Path(nil), prefix...), g.fieldSeg(f))
+		t := f.Type
+		var el *schemagen.Type
+		switch t.Kind {
+		case "list", "set", "map":
+			el = t.Elem
+		case "struct":
+			if depth > 0 {
+				if ns := g.prog.Struct(t.Name); ns != nil && ns.Kind == "struct" {
+					g.geSites(ns, fv, pre, depth-1, out)
+				}
+			}
+			continue
+		default:
+			continue
+		}
+		if el == nil || el.Kind != "struct" {
+			continue
+		}
+		es := g.prog.Struct(el.Name)
+		if es == nil || es.Kind != "struct" || len(g.selectable(es)) < 2 {
+			continue
+		}
+		site := geSite{prefix: pre, elem: es}
+		switch ftOf(g.prog, t) {
+		case "List":
+			if fv.K != "list" || len(fv.L) < 2 {
+				continue
+			}
+			site.kind = "idx"
+			for i := range fv.L {
+				site.ints = append(site.ints, int64(i))
+			}
+		case "IntMap":
+			if fv.K != "map" {
+				continue
+			}
+			site.kind = "keyi"
+			for _, kv := range fv.M {
+				if kv[0].K == "int" && kv[0].I >= 0 {
+					site.ints = append(site.ints, kv[0].I)
+				}
+			}
+			if len(site.ints) < 2 {
+				continue
+			}
+		case "StrMap":
+			if fv.K != "map" || len(fv.M) < 2 {
+				continue
+			}
+			site.kind = "keys"
+			for _, kv := range fv.M {
+				site.strs = append(site.strs, string(kv[0].S))
+			}
+		default:
+			continue
+		}
+		*out = append(*out, site)
+	}
+}
+
+func (g *pgen) groupExt(s *schemagen.Struct, v *valgen.Value) ([]maskkit.Path, bool) {
+	var sites []geSite
+	g.geSites(s, v, nil, 1, &sites)
+	if len(sites) == 0 {
+		return nil, false
+	}
+	r := g.r
+	site := sites[r.Intn(len(sites))]
+	fields := g.selectable(site.elem)
+	fp := r.Intn(len(fields))
+	fa, fb := fields[fp], fields[(fp+1+r.Intn(len(fields)-1))%len(fields)]
+	n := len(site.ints) + len(site.strs)
+	perm := make([]int, n)
+	for i := range perm {
+		perm[i] = i
+	}
+	for i := n - 1; i > 0; i-- {
+		j := r.Intn(i + 1)
+		perm[i], perm[j] = perm[j], perm[i]
+	}
+	m := 2
+	if n >= 3 && r.Bool() {
+		m = 3
+	}
+	k := r.Range(1, m-1)
+	seg := func(from, to int) maskkit.PSeg {
+		sg := maskkit.PSeg{Kind: site.kind}
+		for j := from; j < to; j++ {
+			if site.kind == "keys" {
+				sg.Strs = append(sg.Strs, site.strs[perm[j]])
+			} else {
+				sg.Ints = append(sg.Ints, site.ints[perm[j]])
+			}
+		}
+		return sg
+	}
+	mk := func(keys maskkit.PSeg, f *schemagen.Field) maskkit.Path {
+		return append(append(append(maskkit.Path(nil), site.prefix...), keys), g.fieldSeg(f))
+	}
+	// the set with a continuation first, then the refinement of a strict subset of its members
+	return []maskkit.Path{mk(seg(0, m), fa), mk(seg(0, k), fb)}, true
+}
